@@ -21,7 +21,7 @@ func init() {
 			"a non-zero summary_offset_start that designates the (empty) place where the offset section would begin is accepted",
 			"spec MUSTs that a caller-chosen Skip* flag switches off (repeat channels when statistics carry per-channel counts) are not part of the property's grammar list and are not reported",
 		},
-		batches: map[string]int{"quick": 48, "thorough": 400},
+		batches: map[string]int{"quick": 48, "thorough": 96},
 		checks:  map[string]int{"quick": 150, "thorough": 250},
 	}})
 	runner.Register(&c06{base{
@@ -31,7 +31,7 @@ func init() {
 			"a true CRC of 0 (p=2^-32) is indistinguishable from 'not available'",
 			"summary CRC covers from the end of DataEnd through the footer's summary_offset_start field even when the footer says summary_start=0",
 		},
-		batches: map[string]int{"quick": 48, "thorough": 400},
+		batches: map[string]int{"quick": 48, "thorough": 96},
 		checks:  map[string]int{"quick": 150, "thorough": 250},
 	}})
 }
